@@ -89,6 +89,40 @@ def union_line_items(r, quick):
                 out.append(sym_item(mk(text), mk(edit(i, 'mine')), mk(edit(j, 'theirs')), 'union-lines-sym', T))
     return out
 
+def digit_key_items(r, quick):
+    """objects whose keys LOOK like integers ('1', '2016', '-3', '+7', '007') next to ordinary keys, with changes below both
+    kinds of key in one merge (decision paths through both are then ordered against each other by _sort_key, which turns
+    digit-like strings into numbers): the four laws and symmetry on generic documents, and notebooks whose metadata has
+    such keys (years, version numbers, widget ids)"""
+    out = []
+    J = lambda b, l, rr: jtask(b, l, rr)
+    dkeys = ['1', '2016', '-3', '+7', '007', '10']
+    okeys = ['a', 'kernelspec', 'z']
+    def doc(vals):
+        return {k: ({'v': v, 'w': [v]} if i % 2 == 0 else [v, {'u': v}]) for i, (k, v) in enumerate(vals.items())}
+    for dk in dkeys:
+        for ok in okeys:
+            for dk2 in (None, r.choice([x for x in dkeys if x != dk])):
+                keys = [dk, ok] + ([dk2] if dk2 else [])
+                base = doc({k: 0 for k in keys})
+                x = doc({k: 1 for k in keys})                          # changes below every key
+                y = doc({k: (2 if k == ok else 0) for k in keys})      # change below the ordinary key only
+                z = doc({k: (3 if k == dk else 0) for k in keys})      # change below the digit-like key only
+                out += law_items(base, x, 'digit-keys', J)
+                out.append(sym_item(base, y, z, 'digit-keys-sym', J))
+                out.append(sym_item({'m': base, 'n': 1}, {'m': y, 'n': 1}, {'m': z, 'n': 1}, 'digit-keys-sym', J))
+    N = lambda b_, l_, r_: ntask(b_, l_, r_, None)
+    for k in range(6 if quick else 40):
+        nb = gennb.gen_notebook(r, rich=False)
+        dk, ok = r.choice(dkeys), r.choice(['kernelspec_note', 'author', 'zeta'])
+        nb['metadata'][dk] = {'released': 'no', 'n': [1, 2]}; nb['metadata'][ok] = {'name': 'x', 'tags': ['t']}
+        l = copy.deepcopy(nb); x = copy.deepcopy(nb)
+        l['metadata'][dk]['released'] = 'yes'; x['metadata'][ok]['name'] = 'y'
+        both = copy.deepcopy(l); both['metadata'][ok]['name'] = 'y'
+        out.append(sym_item(nb, l, x, 'digit-keys-nb-sym', N))
+        out += law_items(nb, both, 'digit-keys-nb-law', N)
+    return out
+
 def _strip_ids(nb):
     for c in nb['cells']: c.pop('id', None)
 
@@ -236,6 +270,7 @@ def gen_items(chk, tier, cli):
     items += mi
     chk.cov['minor_triples_dropped_invalid'] = dropped
     items += union_line_items(r, quick)
+    items += digit_key_items(r, quick)
     return items
 
 def judge_item(it, results):
